@@ -17,7 +17,7 @@ func C16Req(t *rapid.T, label string, concurrent bool) *world.Req {
 		rq.Header = append(rq.Header, H("X-A", Pick(t, label+"-xav", "1", "2")))
 	}
 	if rq.Method == "GET" && Pct(t, label+"-rcc", 15) {
-		rq.Header = append(rq.Header, H("Cache-Control", Pick(t, label+"-rccv", "no-cache", "max-age=0", "max-stale", "only-if-cached")))
+		rq.Header = append(rq.Header, H("Cache-Control", Pick(t, label+"-rccv", "no-cache", "max-age=0", "max-stale", "only-if-cached", `stale-if-error="30"`, `max-stale="5", stale-if-error="60"`, `min-fresh="0"`)))
 	}
 	life := Pick(t, label+"-life", int64(0), 0, 1, 60)
 	cc := "max-age=" + itoa(life) + ", stale-while-revalidate=3600"
